@@ -179,7 +179,15 @@ func findFuzzyCandidateTerms(ctx context.Context, indexReader index.IndexReader,
 		}()
 		tfd, err := fieldDict.Next()
 		for err == nil && tfd != nil {
-			err = addCandidateTerm(tfd.Term, tfd.EditDistance)
+			editDistance := tfd.EditDistance
+			if a != nil {
+				// segment formats before zap v16 do not report the edit
+				// distance in the dictionary entry, so ask the automaton
+				if match, d := a.MatchAndDistance(tfd.Term); match {
+					editDistance = d
+				}
+			}
+			err = addCandidateTerm(tfd.Term, editDistance)
 			if err != nil {
 				return nil, err
 			}
